@@ -130,8 +130,10 @@ def explain (pkgs : List Pkg) (impl : Run) (implReasons : List Text) (r : Text) 
   let anyThr := fl.any fun f => match f with | .throughLink _ _ => true | _ => false
   let bk := fl.any fun f => match f with | .baseKept m => m == n | _ => false
   let ali := fl.any fun f => match f with | .alias _ => true | _ => false
+  -- the reason names the node an aliased header name (directory symlink, unclean spelling) reaches
+  let aliN := fl.any fun f => match f with | .alias m => joinNames (parts m) == n | _ => false
   let dropped := impl.recs.any fun files => (droppedNames files).contains n
-  let recOwner := (pkgs.zip impl.recs).any fun (_, files) => files.any fun e => e.name == n ∨ Formats.trimSuffixSlash e.name == n
+  let recOwner := (pkgs.zip impl.recs).any fun (_, files) => files.any fun e => e.name == n ∨ Formats.trimSuffixSlash e.name == n ∨ joinNames (parts e.name) == n
   match reasonKind r with
   | "outcome" | "content" =>
     if anyEmpty then some "F07b" else if anyVer then some "F07h" else if anyThr then some "F07d" else none
@@ -140,7 +142,7 @@ def explain (pkgs : List Pkg) (impl : Run) (implReasons : List Text) (r : Text) 
   | "stray" => if thr then some "F07d" else if ali then some "F07g" else none
   | "multi" => if ali then some "F07g" else if bk then some "F07i" else none
   | "owner" => if recOwner && implReasons.contains r then some "F07e" else none
-  | "mode" => if implReasons.contains r then some "F07f" else none
+  | "mode" => if aliN then some "F07g" else if implReasons.contains r then some "F07f" else none
   | _ => none
 
 /-- the observation the Impl run predicts (for the reasons the model itself foresees) -/
@@ -154,7 +156,7 @@ def implObs (pkgs : List Pkg) (impl : Run) : List ONode × List (List ORec) :=
     match Formats.sortHeaders (files.map toRec) with
     | none => []
     | some sorted => sorted.map fun r =>
-      ({ name := if r.isDir then Formats.trimSuffixSlash r.name else r.name, isDir := r.isDir, mode := r.mode % 512, uid := r.uid, gid := r.gid } : ORec)
+      ({ name := if r.isDir then Formats.trimSuffixSlash r.name else joinNames (parts r.name), isDir := r.isDir, mode := r.mode % 512, uid := r.uid, gid := r.gid } : ORec)
   (nodes, recs)
 
 def classOf (pkgs : List Pkg) (impl : Run) (implReasons : List Text) (reasons : List Text) : String :=
